@@ -26,7 +26,16 @@ RULE = (
     'internal names; in situ: shipped graph, graph factories, the kernels as nodes of a caller graph (UB from U and B '
     'coordinates), coordinates with variances, masked dense / event data, str subclasses for start/origin/target, '
     'second use / call after a caught refusal / copies and display between calls; one shard with 2**20 + 7 and '
-    '3 x 400001 element operands; '
+    '3 x 400001 element operands; every shard also: U / R exactly the identity in every representation (0-d / array, '
+    'quaternion / matrix), operand and dim lengths 2..5, 8..10 (the element types have 3, 4, 9 components), WRITE PROBES on '
+    'every kernel and operand class incl. the neutral elements (after a call each argument is written in place - values, a '
+    'slice, the unit - : the earlier result keeps its contents, the same objects passed again give the result for the new '
+    'contents; the result is written in place: arguments unchanged, same call gives the original result), the same probe on '
+    'the coordinates of a workspace after transform_coords / convert, the graph factories as BUILDING BLOCKS (node set and '
+    'input set as documented; every documented input supplied by an alias / function node of the caller merged in front of '
+    'or behind elastic_hkl, also with the beamline graph, judged against the R, U, B, beams the workspace describes), dim '
+    'names and start / target names that are not in NFC / NFKC form, first call of the kernels / graph factories in a fresh '
+    'interpreter (two per run); '
     'R and U Haar-random or axis permutations (quaternion or 3x3 form), B upper triangular with condition '
     'number up to 1e6; distinct = (function, units, dtype, matrix representation, cond decade, shape class, '
     'angle class) signatures'
@@ -39,6 +48,13 @@ ASSUMPTIONS = [
     'vector3; DimensionError of Q_vec_from_Q_elements for components of different sizes',
     'variances: one operand with variances (the wavelength) entering as the power law 1/lambda, first order: '
     'sd(Q_c) = |Q_c| sd(lambda)/lambda',
+    'h, k, l returned by hkl_elements_from_hkl_vec are the documented .fields views of the vector: not write-probed; input '
+    'coordinates kept in the result of transform_coords share their buffers with the input workspace (scipp): only COMPUTED '
+    'coordinates are write-probed',
+    'documented node sets of graph.tof: elastic_Q_vec = {(Qx, Qy, Qz), Q_vec}, elastic_hkl = that + {(h, k, l), hkl_vec, '
+    'ub_matrix}, plus wavelength when start is tof; inputs: start, incident_beam, scattered_beam (+ sample_rotation, u_matrix, '
+    'b_matrix; + Ltotal for tof)',
+    'a name that is not a valid start / target is refused with whatever exception the lookup raises (counted)',
 ]
 EPS = si.EPS64
 LEN_UNITS = ['m', 'mm', 'cm', 'angstrom', 'one']  # 'one': beams given as dimensionless direction vectors of any length
@@ -461,11 +477,17 @@ BEAM_LAYOUTS = [('0', '0'), ('0', 'p'), ('p', '0'), ('p', 'p')]  # (incident, sc
 # caller dims named like names that appear as dims / coordinates / event dims inside scipp and scippneutron:
 # (pixel dim, wavelength dim, event dim of the bins)
 DIM_NAMES = [('x', 'y', 'z'), ('event', 'row', 'event'), ('Qx', 'Q_vec', 'wavelength'), ('wavelength', 'pixel', 'Qx'),
-             ('range', 'vertex', 'cutout'), ('rotation', 'slit', 'rotation')]
+             ('range', 'vertex', 'cutout'), ('rotation', 'slit', 'rotation'),
+             # names that are not in NFC / NFKC form; the pixel and the wavelength dim are DIFFERENT strings with the same
+             # normal form (decomposed / precomposed accent, ANGSTROM SIGN / A with ring, fullwidth / ASCII, ligature):
+             # they are two dims, and the result names them code point by code point
+             ('pixe\u0301l', 'pix\u00e9l', 'e\u0301vent'), ('\u212b', '\u00c5', 'A\u030a'), ('\uff54\uff4f\uff46', 'tof', '\ufb01'),
+             ('\u2126', '\u03a9', '\u00b5'), ('\u1112\u1161\u11ab', '\ud55c', '\u037e')]
+NON_NFC_FROM = 6  # index of the first tuple of non-normalised names
 
 
-def _forced(dt, angle, layout, beams=None, var=False, dims=None):
-    return {'dt': dt, 'angle': angle, 'layout': layout, 'beams': beams, 'var': var, 'dims': dims}
+def _forced(dt, angle, layout, beams=None, var=False, dims=None, n=None, nw=5):
+    return {'dt': dt, 'angle': angle, 'layout': layout, 'beams': beams, 'var': var, 'dims': dims, 'n': n, 'nw': nw}
 
 
 # forced cases of every shard (index i of the Q family): the classes a random draw of (wavelength dtype x angle class x
@@ -494,6 +516,11 @@ for _k, _names in enumerate(DIM_NAMES):
     FORCED_Q[_i] = _forced(['float64', 'float32'][_k % 2], None, ['per_pixel', '2d', 'binned'][_k % 3],
                            BEAM_LAYOUTS[(_k + 1) % 4], _k % 2 == 0, _names)
     _i += 1
+# dim lengths that coincide with the lengths of the vector types (3 components; quaternion 4; matrix 9), one below, one above
+SIZE_PAIRS = [(3, 3), (2, 3), (4, 3), (3, 2), (3, 4), (4, 4), (9, 3), (3, 9), (9, 9), (8, 10)]
+for _k, (_n, _nw) in enumerate(SIZE_PAIRS):
+    FORCED_Q[_i] = _forced(['float64', 'float32'][_k % 2], None, '2d', BEAM_LAYOUTS[_k % 4], False, None, _n, _nw)
+    _i += 1
 N_FORCED_Q = _i
 
 
@@ -519,8 +546,11 @@ def like_dims(v, ref):
 
 
 def q_family(rng, ctx, K, KB, mon, i=-1, n=None, families=True):
-    n = int(rng.integers(1, 40)) if n is None else n
     fc = FORCED_Q.get(i) or _forced(None, None, None)
+    n = int(rng.integers(1, 40)) if n is None else n
+    n, nw = fc['n'] or n, fc['nw']
+    if fc['n']:
+        ctx.hit(f'dim lengths {n} x {nw} (vector types have 3, 4, 9 components)')
     wdt, angle_class, layout = fc['dt'], fc['angle'], fc['layout']
     r_single, r_sc0, r_var = rng.random(3)
     inc0, sca0 = (n == 1 or r_single < 0.5), r_sc0 < 0.15  # beam given once (0-d) or per pixel
@@ -528,7 +558,8 @@ def q_family(rng, ctx, K, KB, mon, i=-1, n=None, families=True):
         inc0, sca0 = fc['beams'][0] == '0', fc['beams'][1] == '0'
     P, W, E = fc['dims'] or ('pixel', 'wavelength', 'event')
     if fc['dims']:
-        ctx.hit('caller dims named like internal / coordinate names')
+        ctx.hit('caller dims named like internal / coordinate names' if DIM_NAMES.index(fc['dims']) < NON_NFC_FROM
+                else 'caller dims whose names are not in NFC / NFKC form (pairs with the same normal form)')
     # the angle classes are measured pixel by pixel between the two operands as given: with one scattered beam for
     # per-pixel incident beams the roles are generated the other way round
     a, b = gen_beams(rng, n, ctx, force=angle_class, single_incident=inc0 or sca0)
@@ -546,11 +577,11 @@ def q_family(rng, ctx, K, KB, mon, i=-1, n=None, families=True):
     layout = layout or r_layout
     f32 = dt == 'float32'
     var = fc['var'] if i in FORCED_Q else (r_var < 0.15 and not dt.startswith('int'))
-    lam_si = 10.0 ** rng.uniform(-12, -8, size=(n, 5))
-    rel_sd = 10.0 ** rng.uniform(-6, -0.5, size=(n, 5))  # sd(lambda)/lambda of the wavelengths with variances
+    lam_si = 10.0 ** rng.uniform(-12, -8, size=(n, nw))
+    rel_sd = 10.0 ** rng.uniform(-6, -0.5, size=(n, nw))  # sd(lambda)/lambda of the wavelengths with variances
     if dt.startswith('int'):  # whole numbers of angstrom (1..100) or nm (1..10): the integer part of the quantifier's range
         uw = WAV_UNITS[rng.integers(0, 2)]
-        lam_si = rng.integers(1, 101 if uw == 'angstrom' else 11, size=(n, 5)) * (1e-10 if uw == 'angstrom' else 1e-9)
+        lam_si = rng.integers(1, 101 if uw == 'angstrom' else 11, size=(n, nw)) * (1e-10 if uw == 'angstrom' else 1e-9)
         ctx.hit('integer wavelength')
     fw = float(si.lookup(sc.Unit(uw))[0])
     lam_v = np.rint(lam_si / fw) if dt.startswith('int') else lam_si / fw
@@ -614,6 +645,14 @@ def q_family(rng, ctx, K, KB, mon, i=-1, n=None, families=True):
         except sc.VariancesError:
             pass
     qv = K.Q_vec_from_Q_elements(**{c: sc.values(v) for c, v in base.items()})
+    if fc['dims']:
+        # the dims of the result are the dims of the operands, name by name (str equality = code point by code point)
+        ctx.event('dim_names')
+        want_dims = set(lam.dims) | set(vb1.dims) | set(vb2.dims)
+        ev_dim = [qv.bins.constituents['dim']] if ops.is_binned(qv) else []
+        if set(qv.dims) != want_dims or any(set(v.dims) != want_dims for v in base.values()) or ev_dim not in ([], [E]):
+            ctx.violation('dim_names', f'dims of the result {[ascii(d) for d in qv.dims + tuple(ev_dim)]} are not the dims of the '
+                          f'operands {sorted(ascii(d) for d in want_dims)}', dict(mon.meta))
     if layout != 'binned' and families:
         kk = np.abs(2 * np.pi / np.asarray(ops.align(lam, qv), dtype=np.float64))
         # bounds of the families: the forward bound of the definition at the inputs as given, once per evaluation
@@ -712,11 +751,62 @@ def reassemble_family(rng, ctx, K, mon):
     return ('reassemble', which, n == m)
 
 
-def hkl_family(rng, ctx, K, mon):
-    n = int(rng.integers(1, 30))
+def make_rotation(mats, form, arr, dim='pixel'):
+    """Rotation variable holding the given matrices as unit quaternions ('quat') or 3x3 matrices ('matrix'), 0-d or array."""
+    if form == 'quat':
+        q = np.array([matrix_to_quat(m) for m in mats])
+        return sc.spatial.rotations(dims=[dim], values=q) if arr else sc.spatial.rotation(value=q[0])
+    mm = np.array(mats, dtype=np.float64)
+    return sc.spatial.linear_transforms(dims=[dim], values=mm) if arr else sc.spatial.linear_transform(value=mm[0])
+
+
+# the neutral element in every representation a rotation argument can take (quantifier: "rotations R and U over SO(3)",
+# "scalar and array operands"): exactly the identity as 0-d quaternion, 0-d matrix, array of quaternions, array of matrices
+IDENTITY_FORMS = [('quat', False), ('matrix', False), ('quat', True), ('matrix', True)]
+# forced cases of every shard (index i of the hkl family)
+FORCED_HKL = {}
+for _k, (_f, _a) in enumerate(IDENTITY_FORMS):
+    FORCED_HKL[len(FORCED_HKL)] = {'u_identity': (_f, _a)}
+    FORCED_HKL[len(FORCED_HKL)] = {'r_identity': (_f, _a)}
+    FORCED_HKL[len(FORCED_HKL)] = {'u_identity': (_f, _a), 'r_identity': IDENTITY_FORMS[(_k + 1) % 4]}
+# operand lengths that coincide with the lengths of the element types (vector 3, quaternion 4, matrix 3 x 3 = 9), one below,
+# one above: arrays of Q, U, R, B of exactly that length
+SIZE_POINTS = [2, 3, 4, 5, 8, 9, 10]
+for _k, _n in enumerate(SIZE_POINTS):
+    FORCED_HKL[len(FORCED_HKL)] = {'n': _n, 'forms': ['quat', 'matrix'][_k % 2]}
+N_FORCED_HKL = len(FORCED_HKL)
+
+
+def identity_label(which, form, arr):
+    return f'{which} exactly the identity: {"array of " if arr else "0-d "}{"quaternion" if form == "quat" else "3x3 matrix"}' + (
+        's' if arr else '')
+
+
+def hkl_family(rng, ctx, K, mon, i=-1):
+    fc = FORCED_HKL.get(i, {})
+    n = fc.get('n') or int(rng.integers(1, 30))
+    if fc and 'n' not in fc:
+        n = max(n, 2)
     Bv, ub_unit, cdec = gen_b(rng, n, ctx)
     Uv, uform = gen_rotation(rng, n, ctx)
     Rv, rform = gen_rotation(rng, n, ctx)
+    if 'n' in fc:  # all operands arrays of exactly this length
+        f2 = 'matrix' if fc['forms'] == 'quat' else 'quat'
+        Uv = make_rotation([geom.random_rotation(rng).astype(np.float64) for _ in range(n)], fc['forms'], True)
+        Rv = make_rotation([geom.random_rotation(rng).astype(np.float64) for _ in range(n)], f2, True)
+        uform, rform = fc['forms'] + '_array', f2 + '_array'
+        Bv = sc.spatial.linear_transforms(dims=['pixel'], values=np.array([np.triu(rng.uniform(0.5, 2, size=(3, 3))) for _ in range(n)]),
+                                          unit=ub_unit)
+        ctx.hit(f'operand length {n} (element types have 3, 4, 9 components)')
+    for which in ('u', 'r'):
+        if which + '_identity' in fc:
+            form, arr = fc[which + '_identity']
+            v = make_rotation([np.eye(3)] * (n if arr else 1), form, arr)
+            ctx.hit(identity_label('U' if which == 'u' else 'R', form, arr))
+            if which == 'u':
+                Uv, uform = v, form + ('_array' if arr else '_scalar') + '_identity'
+            else:
+                Rv, rform = v, form + ('_array' if arr else '_scalar') + '_identity'
     mon.meta = {'family': 'hkl', 'u': uform, 'r': rform, 'cond_decade': cdec, 'unit': ub_unit}
     UB = K.ub_matrix_from_u_and_b(u_matrix=Uv, b_matrix=Bv)
     qunit = ['1/angstrom', '1/nm'][rng.integers(0, 2)]
@@ -728,7 +818,7 @@ def hkl_family(rng, ctx, K, mon):
     ctx.event('family.split_reassemble')
     if not np.array_equal(re.values.view(np.int64), h.values.view(np.int64)):
         ctx.violation('split', 'splitting hkl into components and reassembling is not lossless', dict(mon.meta))
-    return ('hkl', uform, rform, ub_unit, qunit, cdec, 'Q_array' if Q.ndim else 'Q_scalar')
+    return ('hkl', uform, rform, ub_unit, qunit, cdec, 'Q_array' if Q.ndim else 'Q_scalar', ('n', fc['n']) if 'n' in fc else '')
 
 
 def _bits_equal(x, y):
@@ -1022,6 +1112,693 @@ def insitu_extras(rng, ctx, K, KB, mon, scn, GT):
             ctx.violation('second_use', f'graph.tof.{fac.__name__}: the graph object changed by being used', dict(mon.meta))
 
 
+# ------------------------------------------------- in-place writes: axes (k) and (l) ---
+_UNIT_SWAP = {'angstrom': 'nm', 'nm': 'angstrom', 'm': 'mm', 'mm': 'm', 'cm': 'm', '1/angstrom': '1/nm',
+              '1/nm': '1/angstrom'}
+
+
+def _buffer(v):
+    """The variable that owns the elements (the event buffer of a binned variable)."""
+    return v.bins.constituents['data'] if ops.is_binned(v) else v
+
+
+def _other_values(v):
+    """(old, new) element values of v: new differs from old in every element and is of the same class (unit quaternion,
+    non-singular matrix, positive wavelength)."""
+    dt = ops.elem_dtype(v)
+    old = np.array(_buffer(v).values, copy=True)
+    if dt == sc.DType.rotation3:
+        new = np.roll(old, 1, axis=-1)  # (x, y, z, w) -> (-w, x, y, z): another unit quaternion
+        new[..., 0] *= -1
+    elif dt == sc.DType.linear_transform3:
+        new = old * np.array([[1.5], [0.75], [1.25]])  # rows rescaled
+    elif old.dtype.kind in 'iu':
+        new = old + 1
+    else:
+        new = old * 1.5
+    return old, new
+
+
+def _write(v, mode):
+    """Write into v IN PLACE (same object, same buffer); returns the function that writes the old contents back, or None
+    if the mode does not apply to v."""
+    buf = _buffer(v)
+    if mode == 'unit':
+        if ops.is_binned(v) or buf.unit is None:
+            return None
+        old_unit = buf.unit
+        new_unit = next((sc.Unit(b) for a, b in _UNIT_SWAP.items() if sc.Unit(a) == old_unit), None)
+        if new_unit is None:
+            return None
+        buf.unit = new_unit
+
+        def restore():
+            buf.unit = old_unit
+        return restore
+    old, new = _other_values(v)
+    if mode == 'slice':
+        if buf.ndim < 1 or buf.shape[0] < 2:
+            return None
+        buf[buf.dims[0], 1:].values = new[1:]
+    else:
+        buf.values = new
+
+    def restore():
+        buf.values = old
+    return restore
+
+
+def _outs(res):
+    return dict(res) if isinstance(res, dict) else {'result': res}
+
+
+def write_probe(ctx, mon, name, fn, kwargs, label, modes=('values', 'slice', 'unit')):
+    """Axes (k) and (l) for one kernel call.  (l1) after the call every argument is written in place (all values, a
+    slice, the unit): the result obtained earlier keeps its contents.  (k) the call is repeated with the very same
+    objects: the monitors judge the new result against the NEW contents, and it equals the result for copies of the
+    arguments.  (l2) the result is written in place: the arguments keep their contents and the same call gives the
+    original result again."""
+    mon.meta = {'family': 'write_in_place', 'kernel': name, 'operands': label}
+    case = dict(mon.meta)
+    held = {k: v.copy() for k, v in kwargs.items()}
+    outs = _outs(fn(**kwargs))
+    kept = {k: v.copy() for k, v in outs.items()}
+    for k, v in kwargs.items():
+        for mode in modes:
+            restore = _write(v, mode)
+            if restore is None:
+                continue
+            try:
+                ctx.event('alias.result_after_argument_write')
+                bad = [o for o in outs if not _bits_equal(outs[o], kept[o])]
+                if bad:
+                    ctx.violation('aliasing', f'{name} ({label}): the result {bad} obtained earlier changed when the '
+                                  f'argument {k!r} was written in place ({mode}) after the call', case,
+                                  mechanism='result_follows_argument')
+                again = _outs(fn(**kwargs))  # judged by the monitors for the new contents
+                ref = _outs(fn(**{a: x.copy() for a, x in kwargs.items()}))
+                ctx.event('modify_between_calls')
+                bad = [o for o in ref if o not in again or not _bits_equal(again[o], ref[o])]
+                if bad:
+                    ctx.violation('stale_result', f'{name} ({label}): after {k!r} was modified in place ({mode}) the call '
+                                  f'with the same objects gives {bad} different from the result for the new contents', case)
+            finally:
+                restore()
+    for o, v in outs.items():
+        try:
+            restore = _write(v, 'values')
+        except Exception:  # noqa: BLE001 a read-only result is not a defect
+            ctx.count('write probe: result not writable')
+            continue
+        if restore is None:
+            continue
+        ctx.event('alias.arguments_after_result_write')
+        bad = [k for k in kwargs if not _bits_equal(kwargs[k], held[k])]
+        if bad:
+            ctx.violation('aliasing', f'{name} ({label}): writing in place into the result {o!r} changed the argument(s) '
+                          f'{bad}', case, mechanism='argument_follows_result')
+            for k in bad:  # put the caller's contents back for what follows
+                _buffer(kwargs[k]).values = np.array(_buffer(held[k]).values)
+            continue
+        again = _outs(fn(**kwargs))
+        bad = [x for x in kept if x not in again or not _bits_equal(again[x], kept[x])]
+        if bad:
+            ctx.violation('aliasing', f'{name} ({label}): after the result {o!r} was written in place the same call on the '
+                          f'same arguments gives a different {bad}', case, mechanism='repeat_differs')
+    ctx.hit('written in place after / between calls: ' + name)
+    ctx.case(('write_in_place', name, label))
+
+
+def write_family(rng, ctx, K, mon):
+    """Deterministic operand classes for the write probes: every representation of the neutral element of each kernel
+    (rotation by 0 as quaternion / matrix / arrays of them, B and UB the unit matrix, 2 pi UB = 1, beams of length exactly
+    1, wavelength exactly 1) next to generic operands; 0-d, array and event layouts."""
+    n = int(rng.integers(2, 7))
+
+    def rot(identity, form, arr):
+        return make_rotation([np.eye(3) if identity else geom.random_rotation(rng).astype(np.float64)
+                              for _ in range(n if arr else 1)], form, arr)
+
+    def bmat(arr, unit='1/angstrom', identity=False, scale=1.0):
+        mm = np.array([np.eye(3) * scale if identity else np.triu(rng.uniform(0.5, 2, size=(3, 3))) for _ in range(n if arr else 1)])
+        return (sc.spatial.linear_transforms(dims=['pixel'], values=mm, unit=unit) if arr
+                else sc.spatial.linear_transform(value=mm[0], unit=unit))
+
+    def qvec(arr, unit='1/angstrom'):
+        q = rng.normal(size=(n, 3))
+        return sc.vectors(dims=['pixel'], values=q, unit=unit) if arr else sc.vector(q[0], unit=unit)
+
+    # UB = U B
+    for identity in (True, False):
+        for form, arr in IDENTITY_FORMS:
+            for b_arr in (False, True):
+                lab = f'U {"identity" if identity else "generic"} {form}{" array" if arr else " 0-d"}, B {"array" if b_arr else "0-d"}'
+                if identity:
+                    ctx.hit(identity_label('U', form, arr) + ' (write probe)')
+                write_probe(ctx, mon, 'ub_matrix_from_u_and_b', K.ub_matrix_from_u_and_b,
+                            {'u_matrix': rot(identity, form, arr), 'b_matrix': bmat(b_arr)}, lab)
+    for form in ('quat', 'matrix'):
+        ctx.hit('B exactly the unit matrix (write probe)')
+        write_probe(ctx, mon, 'ub_matrix_from_u_and_b', K.ub_matrix_from_u_and_b,
+                    {'u_matrix': rot(False, form, False), 'b_matrix': bmat(False, unit='one', identity=True)},
+                    f'U generic {form} 0-d, B unit matrix')
+    # hkl
+    for identity in (True, False):
+        for form, arr in IDENTITY_FORMS:
+            for q_arr in (True, False):
+                if arr and not q_arr and identity:
+                    continue
+                lab = f'R {"identity" if identity else "generic"} {form}{" array" if arr else " 0-d"}, Q {"array" if q_arr else "0-d"}'
+                if identity:
+                    ctx.hit(identity_label('R', form, arr) + ' (write probe)')
+                write_probe(ctx, mon, 'hkl_vec_from_Q_vec', K.hkl_vec_from_Q_vec,
+                            {'Q_vec': qvec(q_arr), 'ub_matrix': bmat(False), 'sample_rotation': rot(identity, form, arr)}, lab)
+    for form in ('quat', 'matrix'):
+        # R the identity and 2 pi UB the unit matrix: hkl = Q
+        ctx.hit('R the identity and 2 pi UB the unit matrix (write probe)')
+        write_probe(ctx, mon, 'hkl_vec_from_Q_vec', K.hkl_vec_from_Q_vec,
+                    {'Q_vec': qvec(True), 'ub_matrix': bmat(False, identity=True, scale=float(1 / (2 * np.pi))),
+                     'sample_rotation': rot(True, form, False)}, f'R identity {form} 0-d, 2 pi UB = 1')
+        ctx.hit('R the identity and UB the unit matrix (write probe)')
+        write_probe(ctx, mon, 'hkl_vec_from_Q_vec', K.hkl_vec_from_Q_vec,
+                    {'Q_vec': qvec(True), 'ub_matrix': bmat(False, identity=True), 'sample_rotation': rot(True, form, False)},
+                    f'R identity {form} 0-d, UB = 1')
+    # components <-> vector
+    comps = {c: sc.array(dims=['pixel', 'wavelength'], values=rng.normal(size=(n, 3)), unit='1/angstrom') for c in ('Qx', 'Qy', 'Qz')}
+    write_probe(ctx, mon, 'Q_vec_from_Q_elements', K.Q_vec_from_Q_elements, comps, 'dense 2-d components', modes=('values', 'slice'))
+    sizes = rng.integers(1, 4, size=n)
+    write_probe(ctx, mon, 'Q_vec_from_Q_elements', K.Q_vec_from_Q_elements,
+                {c: ops.make_binned(rng.normal(size=int(sizes.sum())), sizes, ['pixel'], (n,), '1/angstrom') for c in ('Qx', 'Qy', 'Qz')},
+                'event components', modes=('values', 'slice'))
+    write_probe(ctx, mon, 'Q_vec_from_Q_elements', K.Q_vec_from_Q_elements,
+                {c: sc.scalar(float(x), unit='1/angstrom') for c, x in zip(('Qx', 'Qy', 'Qz'), rng.normal(size=3), strict=True)},
+                '0-d components', modes=('values',))
+    # h, k, l are documented views of the vector (``.fields``): written through on purpose, not probed
+    ctx.count('write probe skipped: hkl_elements_from_hkl_vec returns the documented .fields views of its argument')
+    # Q elements
+    a, b = gen_beams(rng, n, ctx, single_incident=True)
+    lam = rng.uniform(0.5, 10, size=(n, 3))
+    ax = np.eye(3)
+    cases = [
+        ('per-pixel wavelength, beams 0-d / per pixel', sc.array(dims=['pixel'], values=lam[:, 0], unit='angstrom'), vecs(a[0], 'm'), vecs(b, 'm')),
+        ('2-d wavelength, beams per pixel', sc.array(dims=['pixel', 'wavelength'], values=lam, unit='angstrom'), vecs(a, 'm'), vecs(b, 'mm')),
+        ('0-d wavelength, 0-d beams', sc.scalar(lam[0, 0], unit='angstrom'), vecs(a[0], 'm'), vecs(b[0], 'm')),
+        ('float32 wavelength', sc.array(dims=['wavelength'], values=lam[0], unit='nm', dtype='float32'), vecs(a[0], 'm'), vecs(b, 'm')),
+        ('event wavelengths', ops.make_binned(rng.uniform(0.5, 10, size=int(sizes.sum())), sizes, ['pixel'], (n,), 'angstrom'),
+         vecs(a[0], 'm'), vecs(b, 'm')),
+        ('wavelength exactly 1, beams of length exactly 1 along the axes', sc.scalar(1.0, unit='angstrom'),
+         sc.vector(ax[2], unit='one'), sc.vectors(dims=['pixel'], values=np.array([ax[0], ax[1], -ax[0]]), unit='one')),
+    ]
+    for lab, w, vb1, vb2 in cases:
+        if lab.startswith('wavelength exactly 1'):
+            ctx.hit('wavelength exactly 1 and beams of length exactly 1 (write probe)')
+        write_probe(ctx, mon, 'Q_elements_from_wavelength', K.Q_elements_from_wavelength,
+                    {'wavelength': w, 'incident_beam': vb1, 'scattered_beam': vb2}, lab)
+
+
+WRITE_KERNELS = ['ub_matrix_from_u_and_b', 'hkl_vec_from_Q_vec', 'Q_vec_from_Q_elements', 'Q_elements_from_wavelength']
+WRITE_CLASSES = (['written in place after / between calls: ' + k for k in WRITE_KERNELS]
+                 + [identity_label(w, f, a) + ' (write probe)' for w in 'UR' for f, a in IDENTITY_FORMS]
+                 + ['B exactly the unit matrix (write probe)', 'R the identity and 2 pi UB the unit matrix (write probe)',
+                    'R the identity and UB the unit matrix (write probe)',
+                    'wavelength exactly 1 and beams of length exactly 1 (write probe)'])
+
+
+# --------------------------------- graphs as building blocks; writes into a workspace ---
+# what the documentation of the kernels lists as INPUTS (parameters that no kernel of the graph computes) and as OUTPUTS
+DOC_NODES = {
+    'elastic_Q_vec': [('Qx', 'Qy', 'Qz'), 'Q_vec'],
+    'elastic_hkl': [('Qx', 'Qy', 'Qz'), 'Q_vec', ('h', 'k', 'l'), 'hkl_vec', 'ub_matrix'],
+}
+DOC_INPUTS = {
+    'elastic_Q_vec': ['incident_beam', 'scattered_beam'],
+    'elastic_hkl': ['incident_beam', 'scattered_beam', 'sample_rotation', 'u_matrix', 'b_matrix'],
+}
+# names that are inputs of the conversions (coordinates of the workspace or outputs of the beamline graphs): no graph of
+# graph.tof may define them
+INPUT_NAMES = ['sample_rotation', 'u_matrix', 'b_matrix', 'incident_beam', 'scattered_beam', 'Ltotal', 'L1', 'L2', 'two_theta',
+               'position', 'source_position', 'sample_position', 'gravity']
+
+
+def _flat(keys):
+    out = set()
+    for k in keys:
+        out.update(k if isinstance(k, tuple) else (k,))
+    return out
+
+
+def graph_node_sets(ctx, mon, GT):
+    import inspect
+    for start in ('tof', 'wavelength'):
+        for fname in ('elastic_Q_vec', 'elastic_hkl', 'elastic'):
+            mon.meta = {'family': 'graph_nodes', 'factory': fname, 'start': start}
+            try:
+                g = getattr(GT, fname)(start)
+                keys = list(g)
+                free = set()
+                for node in g.values():
+                    if callable(node):
+                        free.update(inspect.signature(node).parameters)
+                    else:
+                        free.add(node)
+                free -= _flat(keys)
+            except Exception as e:  # noqa: BLE001
+                ctx.violation('raised_outer', f'graph.tof.{fname}({start!r}): {type(e).__name__}: {e}', dict(mon.meta))
+                continue
+            ctx.event('graph_nodes')
+            ctx.case(('graph_nodes', fname, start))
+            bad = sorted(_flat(keys) & (set(INPUT_NAMES) | {start}))
+            if bad:
+                ctx.violation('graph_nodes', f'graph.tof.{fname}({start!r}) defines node(s) for {bad}, which the conversions '
+                              'take as inputs: a node of the caller for the same name is lost when the graphs are merged',
+                              dict(mon.meta), mechanism='node_for_an_input')
+            if fname in DOC_NODES:
+                want = DOC_NODES[fname] + (['wavelength'] if start == 'tof' else [])
+                want_free = set(DOC_INPUTS[fname]) | {start} | ({'Ltotal'} if start == 'tof' else set())
+                if set(keys) != set(want) or len(keys) != len(want):
+                    ctx.violation('graph_nodes', f'graph.tof.{fname}({start!r}) has the nodes {sorted(map(str, keys))}, '
+                                  f'documented: {sorted(map(str, want))}', dict(mon.meta), mechanism='node_set')
+                elif free != want_free:
+                    ctx.violation('graph_nodes', f'graph.tof.{fname}({start!r}) takes the inputs {sorted(free)}, documented: '
+                                  f'{sorted(want_free)}', dict(mon.meta), mechanism='input_set')
+    ctx.hit('graph factories: node sets and input sets as documented')
+
+
+def _omega_rotation(omega):
+    """User node: rotation of the sample table about the vertical (y) axis from the motor angle."""
+    half = 0.5 * omega.to(unit='rad').values
+    z = np.zeros_like(half)
+    return sc.spatial.rotations(dims=omega.dims, values=np.stack([z, np.sin(half), z, np.cos(half)], axis=-1))
+
+
+def _copy_node(src):
+    """User node computing a quantity from the coordinate ``src`` (here: a copy)."""
+    return eval(f'lambda {src}: {src}.copy()')  # noqa: S307 the parameter NAME is what transform_coords looks up
+
+
+class Truth:
+    """What a generated workspace describes, in the harness's own numbers."""
+
+    def __init__(self, rng, ctx, start):
+        self.start = start
+        self.nrun, self.n, self.nw = int(rng.integers(2, 4)), int(rng.integers(2, 6)), int(rng.integers(2, 5))
+        k = si.constants()
+        a = geom.random_unit(rng, 1) * rng.uniform(5, 50)
+        b = geom.random_unit(rng, self.n) * rng.uniform(0.5, 5, size=(self.n, 1))
+        self.sample = rng.normal(size=3)
+        self.inc, self.sca = np.asarray(a[0], dtype=np.float64), np.asarray(b, dtype=np.float64)
+        self.ltotal = np.asarray(geom.norm(self.inc) + geom.norm(self.sca), dtype=np.float64)
+        self.spectral = rng.uniform(0.5, 10, size=self.nw) if start == 'wavelength' else rng.uniform(500, 50000, size=self.nw)
+        if start == 'wavelength':
+            lam = np.broadcast_to(self.spectral.astype(si.LD), (self.n, self.nw))
+        else:  # lambda = h t / (m_n L), in angstrom
+            lam = (k['h'] / k['m_n']) * (self.spectral.astype(si.LD) * si.LD(1e-6))[None, :] / self.ltotal.astype(si.LD)[:, None] * si.LD(1e10)
+        self.lam = lam
+        self.omega = rng.uniform(-180, 180, size=self.nrun)
+        half = np.deg2rad(self.omega) / 2
+        z = np.zeros_like(half)
+        self.rq = np.stack([z, np.sin(half), z, np.cos(half)], axis=-1)
+        self.u = matrix_to_quat(geom.random_rotation(rng).astype(np.float64))
+        self.b = np.triu(rng.uniform(0.5, 2, size=(3, 3)))
+        ei = geom.v3(self.inc) / geom.norm(self.inc)
+        ef = geom.v3(self.sca) / geom.norm(self.sca)[..., None]
+        self.q = (2 * si.PI / lam)[..., None] * (ei - ef)[:, None, :]  # (pixel, spectral, 3), 1/angstrom
+        self.m = quat_to_matrix(self.rq) @ quat_to_matrix(self.u) @ self.b.astype(si.LD)  # (run, 3, 3)
+
+    def variables(self):
+        s = self.start
+        return {
+            s: sc.array(dims=[s], values=self.spectral, unit='angstrom' if s == 'wavelength' else 'us'),
+            'incident_beam': vecs(self.inc, 'm'), 'scattered_beam': vecs(self.sca, 'm'),
+            'Ltotal': sc.array(dims=['pixel'], values=self.ltotal, unit='m'),
+            'sample_rotation': sc.spatial.rotations(dims=['run'], values=self.rq),
+            'u_matrix': sc.spatial.rotation(value=self.u),
+            'b_matrix': sc.spatial.linear_transform(value=self.b, unit='1/angstrom'),
+        }
+
+    def workspace(self, coords):
+        return sc.DataArray(sc.ones(dims=['run', 'pixel', self.start], shape=[self.nrun, self.n, self.nw]), coords=coords)
+
+    def judge(self, ctx, mon, res, what):
+        """Q_vec and hkl_vec of the result against the quantities the workspace describes: Q = (2 pi / lambda)(e_i - e_f),
+        2 pi R UB hkl = Q with the workspace's own R, U, B."""
+        try:
+            dims, shape = ['run', 'pixel', self.start], [self.nrun, self.n, self.nw]
+            missing = [c for c in ('Q_vec', 'hkl_vec', 'h', 'k', 'l') if c not in res.coords]
+            if missing:
+                ctx.event('graph_blocks')
+                ctx.violation('graph_blocks', f'{what}: coordinate(s) {missing} missing from the result', dict(mon.meta))
+                return
+            full = {}
+            for c in ('Q_vec', 'hkl_vec', 'h', 'k', 'l'):
+                v = res.coords[c]
+                if not set(v.dims) <= set(dims):
+                    ctx.event('graph_blocks')
+                    ctx.violation('graph_blocks', f'{what}: {c} has dims {v.dims}', dict(mon.meta))
+                    return
+                full[c] = sc.broadcast(v, dims=[d for d in dims if d not in v.dims] + list(v.dims),
+                                       shape=[s for d, s in zip(dims, shape, strict=True) if d not in v.dims] + list(v.shape)
+                                       ).transpose(dims).copy()
+            qgot = geom.v3(full['Q_vec'].values)
+            hkl = geom.v3(full['hkl_vec'].values)
+            k = 2 * si.PI / self.lam
+            qerr = np.max(np.abs(qgot - self.q[None]), axis=-1) / (256 * EPS * k)[None]
+            back = 2 * si.PI * np.einsum('rij,rpwj->rpwi', self.m, hkl)
+            cond = np.linalg.cond(self.m.astype(np.float64))[:, None, None]
+            tol = 64 * EPS * cond * geom.norm(self.q)[None] + 512 * EPS * k[None]
+            herr = geom.norm(back - self.q[None]) / tol
+            split_ok = all(np.array_equal(np.asarray(full[c].values), np.asarray(full['hkl_vec'].values)[..., j])
+                           for j, c in enumerate('hkl'))
+            units_ok = (full['Q_vec'].unit == sc.Unit('1/angstrom') and full['hkl_vec'].unit == sc.Unit('one'))
+            dims_ok = set(res.coords['hkl_vec'].dims) == set(dims)
+        except Exception:  # noqa: BLE001
+            ctx.oracle_error('graph_blocks.judge')
+            return
+        ctx.event('graph_blocks')
+        ctx.dev('graph level: |Q_vec - Q of the workspace| / (256 eps 2pi/lambda)', float(np.max(qerr)))
+        ctx.dev('graph level: |2 pi R UB hkl - Q| with the R, U, B of the workspace / bound', float(np.max(herr)))
+        if not units_ok:
+            ctx.violation('unit', f'{what}: units {full["Q_vec"].unit}, {full["hkl_vec"].unit}', dict(mon.meta))
+        elif float(np.max(qerr)) > 1:
+            ctx.violation('graph_blocks', f'{what}: Q_vec differs from (2 pi/lambda)(e_i - e_f) of the workspace by '
+                          f'{float(np.max(qerr)):.3g} x the bound', dict(mon.meta), quantity='Q_vec')
+        elif not np.all(np.isfinite(herr)) or float(np.max(herr)) > 1 or not dims_ok:
+            ctx.violation('graph_blocks', f'{what}: 2 pi R UB hkl = Q does not hold with the sample rotation / U / B that the '
+                          f'workspace describes: residual {float(np.max(herr)):.3g} x the bound; dims of hkl_vec '
+                          f'{res.coords["hkl_vec"].dims}', dict(mon.meta), quantity='hkl_vec')
+        elif not split_ok:
+            ctx.violation('split', f'{what}: h, k, l differ from the components of hkl_vec', dict(mon.meta))
+
+
+def graph_blocks(rng, ctx, K, mon, GT):
+    """The graphs of graph.tof as building blocks of a caller's graph: every documented input supplied by a node of the
+    caller (an alias to a coordinate under another name, or a function of other coordinates), merged in front of and
+    behind the library graph; with and without the beamline graph behind it."""
+    from scippneutron.conversion.graph import beamline as GB
+
+    def run_ws(what, ws, graph):
+        try:
+            return ws.transform_coords(('h', 'k', 'l'), graph=graph, rename_dims=False)
+        except Exception as e:  # noqa: BLE001
+            ctx.violation('raised_outer', f'{what}: {type(e).__name__}: {e}', dict(mon.meta))
+            return None
+
+    for start in ('wavelength', 'tof'):
+        t = Truth(rng, ctx, start)
+        inputs = [start, 'incident_beam', 'scattered_beam', 'sample_rotation', 'u_matrix', 'b_matrix'] + (
+            ['Ltotal'] if start == 'tof' else [])
+        # control: every input a coordinate under its documented name
+        base = {k: v for k, v in t.variables().items() if k in inputs}
+        mon.meta = {'family': 'graph_blocks', 'start': start, 'input': 'none', 'node': 'coordinates only', 'merged': '-'}
+        r = run_ws('elastic_hkl alone', t.workspace(base), GT.elastic_hkl(start))
+        if r is not None:
+            t.judge(ctx, mon, r, f'elastic_hkl({start!r}), every input a coordinate')
+        for x in inputs:
+            for kind in ('alias', 'function'):
+                for merged in ('in front of', 'behind'):
+                    coords = dict(t.variables())
+                    coords = {k: v for k, v in coords.items() if k in inputs}
+                    val = coords.pop(x)
+                    if x == 'sample_rotation' and kind == 'function':
+                        coords['omega'] = sc.array(dims=['run'], values=t.omega, unit='deg')
+                        user = {x: _omega_rotation}
+                    else:
+                        coords['user_' + x] = val
+                        user = {x: 'user_' + x} if kind == 'alias' else {x: _copy_node('user_' + x)}
+                    lib = GT.elastic_hkl(start)
+                    graph = {**user, **lib} if merged == 'in front of' else {**lib, **user}
+                    mon.meta = {'family': 'graph_blocks', 'start': start, 'input': x, 'node': kind, 'merged': merged}
+                    what = f'{{{kind} node of the caller for {x!r}}} merged {merged} elastic_hkl({start!r})'
+                    r = run_ws(what, t.workspace(coords), graph)
+                    ctx.case(('graph_blocks', start, x, kind, merged))
+                    if r is not None:
+                        ctx.hit(f'caller node for an input merged {merged} the library graph')
+                        ctx.hit(f'caller node ({kind}) for the input {x if x != start else "<start>"}')
+                        t.judge(ctx, mon, r, what)
+        # as in the user guide: {**nodes of the caller, **elastic_hkl, **beamline graph}, positions as coordinates
+        for x in ('sample_rotation', 'u_matrix', 'b_matrix'):
+            for kind in ('alias', 'function'):
+                allv = t.variables()
+                coords = {k: allv[k] for k in (start, 'sample_rotation', 'u_matrix', 'b_matrix')}
+                sample = t.sample
+                coords.update({'sample_position': sc.vector(sample, unit='m'), 'source_position': sc.vector(sample - t.inc, unit='m'),
+                               'position': sc.vectors(dims=['pixel'], values=sample + t.sca, unit='m')})
+                val = coords.pop(x)
+                if x == 'sample_rotation' and kind == 'function':
+                    coords['omega'] = sc.array(dims=['run'], values=t.omega, unit='deg')
+                    user = {x: _omega_rotation}
+                else:
+                    coords['user_' + x] = val
+                    user = {x: 'user_' + x} if kind == 'alias' else {x: _copy_node('user_' + x)}
+                mon.meta = {'family': 'graph_blocks', 'start': start, 'input': x, 'node': kind, 'merged': 'with beamline graph'}
+                what = f'{{{kind} node of the caller for {x!r}, **elastic_hkl({start!r}), **beamline(scatter=True)}}'
+                r = run_ws(what, t.workspace(coords), {**user, **GT.elastic_hkl(start), **GB.beamline(scatter=True)})
+                ctx.case(('graph_blocks', start, x, kind, 'beamline'))
+                if r is not None:
+                    ctx.hit('caller nodes + elastic_hkl + beamline graph, positions as coordinates')
+                    # positions are sums of the harness's numbers: the beams the workspace describes are their differences
+                    t2 = _with_beams(t, np.asarray(coords['sample_position'].value - coords['source_position'].value),
+                                     np.asarray(coords['position'].values - coords['sample_position'].value))
+                    t2.judge(ctx, mon, r, what)
+
+
+def _with_beams(t, inc, sca):
+    """Truth of the same workspace with the beams given by differences of the position coordinates."""
+    import copy
+    t2 = copy.copy(t)
+    t2.inc, t2.sca = inc, sca
+    k = si.constants()
+    lt = (geom.norm(inc) + geom.norm(sca))
+    if t.start == 'tof':
+        t2.lam = (k['h'] / k['m_n']) * (t.spectral.astype(si.LD) * si.LD(1e-6))[None, :] / lt[:, None] * si.LD(1e10)
+    ei = geom.v3(inc) / geom.norm(inc)
+    ef = geom.v3(sca) / geom.norm(sca)[..., None]
+    t2.q = (2 * si.PI / t2.lam)[..., None] * (ei - ef)[:, None, :]
+    return t2
+
+
+GRAPH_BLOCK_CLASSES = (['graph factories: node sets and input sets as documented',
+                        'caller node for an input merged in front of the library graph',
+                        'caller node for an input merged behind the library graph',
+                        'caller nodes + elastic_hkl + beamline graph, positions as coordinates']
+                       + [f'caller node ({k}) for the input {x}' for k in ('alias', 'function')
+                          for x in ('<start>', 'incident_beam', 'scattered_beam', 'sample_rotation', 'u_matrix', 'b_matrix', 'Ltotal')])
+
+
+def workspace_writes(rng, ctx, K, mon, scn, GT):
+    """Axis (l) through the public routes: after transform_coords / convert, the input coordinates of the caller's
+    workspace are written in place; the coordinates COMPUTED earlier keep their contents (and UB still is U B of the
+    contents it was computed from).  U exactly the identity and generic."""
+    computed = ['ub_matrix', 'Qx', 'Qy', 'Qz', 'Q_vec', 'hkl_vec', 'h', 'k', 'l']
+    n = int(rng.integers(2, 8))
+    for u_identity in (True, False):
+        for route in ('elastic_hkl graph', 'convert'):
+            da = _instrument(rng, ctx, n, u_and_b=True)
+            if u_identity:
+                da.coords['u_matrix'] = sc.spatial.rotation(value=[0.0, 0.0, 0.0, 1.0])
+            mon.meta = {'family': 'workspace_writes', 'route': route, 'u': 'identity' if u_identity else 'generic'}
+            try:
+                if route == 'convert':
+                    out = scn.convert(da, 'wavelength', 'hkl_vec', scatter=True)
+                    out = out.transform_coords(['h', 'k', 'l'], graph=GT.elastic_hkl('wavelength'), keep_intermediate=True,
+                                               keep_inputs=True)
+                else:
+                    out = da.transform_coords(['h', 'k', 'l'], graph=GT.elastic_hkl('wavelength'), keep_intermediate=True,
+                                              keep_inputs=True, rename_dims=False)
+            except Exception as e:  # noqa: BLE001
+                ctx.violation('raised_outer', f'{route}: {type(e).__name__}: {e}', dict(mon.meta))
+                continue
+            have = [c for c in computed if c in out.coords]
+            kept = {c: out.coords[c].copy() for c in have}
+            ub_want = quat_to_matrix(da.coords['u_matrix'].values) @ np.asarray(da.coords['b_matrix'].values).astype(si.LD)
+            for name in ('b_matrix', 'u_matrix', 'sample_rotation', 'wavelength', 'incident_beam', 'scattered_beam'):
+                for mode in ('values', 'unit'):
+                    restore = _write(da.coords[name], mode)
+                    if restore is None:
+                        continue
+                    try:
+                        ctx.event('alias.workspace_coordinate_written')
+                        bad = [c for c in have if not _bits_equal(out.coords[c], kept[c])]
+                        if bad:
+                            ctx.violation('aliasing', f'{route}: the computed coordinate(s) {bad} of the result changed when the '
+                                          f'coordinate {name!r} of the input workspace was written in place ({mode}) afterwards',
+                                          dict(mon.meta), mechanism='result_follows_argument')
+                        if 'ub_matrix' in have:
+                            err = float(np.max(np.abs(np.asarray(out.coords['ub_matrix'].values).astype(si.LD) - ub_want)))
+                            if err > 16 * EPS * float(np.max(np.abs(ub_want))) or out.coords['ub_matrix'].unit != sc.Unit('1/angstrom'):
+                                ctx.violation('ub_product', f'{route}: the ub_matrix computed earlier is no longer U B of the '
+                                              f'contents it was computed from after {name!r} was written in place ({mode})',
+                                              dict(mon.meta))
+                    finally:
+                        restore()
+            ctx.hit('input workspace written in place after the conversion: ' + route + (', U the identity' if u_identity else ''))
+            ctx.case(('workspace_writes', route, u_identity))
+
+
+WORKSPACE_WRITE_CLASSES = ['input workspace written in place after the conversion: ' + r + u
+                           for r in ('elastic_hkl graph', 'convert') for u in ('', ', U the identity')]
+
+
+# ----------------------------------------------------------- axis (n): names ---
+NON_NORMAL_NAMES = {
+    # fullwidth letters, modifier / script letters (NFKC gives the ASCII name), zero-width space, KELVIN SIGN
+    'tof': ['\uff54\uff4f\uff46', 't\uff4ff', '\u1d57of', 'tof\u200b'],
+    'wavelength': ['\uff57avelength', 'wavelen\uff47th', 'wave\u2113ength', '\u02b7avelength'],
+    'Q_vec': ['\uff31_vec', 'Q\uff3fvec', 'Q_ve\uff43'],
+    'hkl_vec': ['\u210ekl_vec', 'h\u212al_vec', 'hkl\uff3fvec', '\uff48kl_vec'],
+}
+
+
+def unicode_names(rng, ctx, mon, scn, GT, da, da_tof):
+    """Strings that are not in NFC / NFKC form and merely NORMALISE to a valid name are not that name: the graph
+    factories and convert() refuse them (counted) instead of treating them as the valid name."""
+    import unicodedata
+    for valid, names in NON_NORMAL_NAMES.items():
+        for s in names:
+            if s == valid:
+                continue
+            folded = unicodedata.normalize('NFKC', s) == valid
+            mon.meta = {'family': 'unicode_names', 'valid': valid, 'given': ascii(s), 'nfkc_equal': folded}
+            calls = []
+            if valid in ('tof', 'wavelength'):
+                calls += [(f'graph.tof.{f}', lambda f=f, s=s: getattr(GT, f)(s)) for f in ('elastic_Q_vec', 'elastic_hkl', 'elastic')]
+                d0 = da if valid == 'wavelength' else da_tof
+                calls.append(('convert origin', lambda d0=d0, s=s: scn.convert(d0, s, 'Q_vec', scatter=True)))
+            else:
+                calls.append(('convert target', lambda s=s: scn.convert(da, 'wavelength', s, scatter=True)))
+                calls.append(('transform_coords target', lambda s=s: da.transform_coords(s, graph=GT.elastic_hkl('wavelength'))))
+            for label, fn in calls:
+                ctx.event('unicode_names')
+                try:
+                    fn()
+                except Exception:  # noqa: BLE001 any refusal: the name is not a valid one
+                    ctx.count('refusal: name that is not in normal form (' + label.split()[0] + ')')
+                    continue
+                ctx.violation('unicode_name', f'{label}: the name {ascii(s)} was accepted as {valid!r}', dict(mon.meta))
+    ctx.hit('names that only normalise (NFKC) to tof / wavelength / Q_vec / hkl_vec')
+
+
+# ------------------------------------------------ axis (o): fresh interpreter ---
+_FRESH_KERNELS = r'''
+import json, sys
+import numpy as np
+import scipp as sc
+from scippneutron.conversion import tof as K
+a = json.loads(sys.argv[1])
+f = lambda xs: np.array([float.fromhex(x) for x in xs])
+lam = sc.array(dims=['pixel'], values=f(a['lam']), unit='angstrom')
+inc = sc.vector(f(a['inc']), unit='m')
+sca = sc.vectors(dims=['pixel'], values=f(a['sca']).reshape(-1, 3), unit='m')
+el = K.Q_elements_from_wavelength(wavelength=lam, incident_beam=inc, scattered_beam=sca)
+qv = K.Q_vec_from_Q_elements(**el)
+ub = K.ub_matrix_from_u_and_b(u_matrix=sc.spatial.rotation(value=f(a['u'])),
+                              b_matrix=sc.spatial.linear_transform(value=f(a['b']).reshape(3, 3), unit='1/angstrom'))
+h = K.hkl_vec_from_Q_vec(Q_vec=qv, ub_matrix=ub, sample_rotation=sc.spatial.rotation(value=f(a['r'])))
+parts = K.hkl_elements_from_hkl_vec(hkl_vec=h)
+out = {'Qx': el['Qx'], 'Qy': el['Qy'], 'Qz': el['Qz'], 'Q_vec': qv, 'ub_matrix': ub, 'hkl_vec': h, **parts}
+import scippneutron
+print(json.dumps({'file': scippneutron.__file__, 'res': {k: [str(v.unit), list(v.dims), [float(x).hex() for x in np.asarray(v.values).ravel()]]
+                  for k, v in out.items()}}))
+'''
+_FRESH_GRAPH = r'''
+import json, sys
+import numpy as np
+import scipp as sc
+from scippneutron.conversion.graph import tof as GT
+a = json.loads(sys.argv[1])
+f = lambda xs: np.array([float.fromhex(x) for x in xs])
+da = sc.DataArray(sc.ones(dims=['pixel'], shape=[len(a['lam'])]), coords={
+    'wavelength': sc.array(dims=['pixel'], values=f(a['lam']), unit='angstrom'),
+    'incident_beam': sc.vector(f(a['inc']), unit='m'),
+    'scattered_beam': sc.vectors(dims=['pixel'], values=f(a['sca']).reshape(-1, 3), unit='m'),
+    'u_matrix': sc.spatial.rotation(value=f(a['u'])),
+    'b_matrix': sc.spatial.linear_transform(value=f(a['b']).reshape(3, 3), unit='1/angstrom'),
+    'sample_rotation': sc.spatial.rotation(value=f(a['r']))})
+keys = {fn + ':' + s: sorted(map(str, getattr(GT, fn)(s))) for fn in ('elastic_Q_vec', 'elastic_hkl') for s in ('tof', 'wavelength')}
+r = da.transform_coords(['h', 'k', 'l'], graph=GT.elastic_hkl('wavelength'), keep_intermediate=True, rename_dims=False)
+import scippneutron
+print(json.dumps({'file': scippneutron.__file__, 'keys': keys,
+                  'res': {k: [str(r.coords[k].unit), list(r.coords[k].dims), [float(x).hex() for x in np.asarray(r.coords[k].values).ravel()]]
+                          for k in ('Qx', 'Qy', 'Qz', 'Q_vec', 'ub_matrix', 'hkl_vec', 'h', 'k', 'l')}}))
+'''
+
+
+def fresh_interpreter(rng, ctx, K, mon, GT, which):
+    """One call of every kernel (which='kernels') / of the graph factories (which='graph') as the FIRST thing a fresh
+    interpreter does after importing only the module of the entry point; the worker makes the same calls (judged by the
+    monitors) and the two results agree bit for bit."""
+    import json
+    import os
+    import subprocess
+    import sys
+    n = 4
+    a, b = gen_beams(rng, n, ctx, single_incident=True)
+    args = {'lam': rng.uniform(0.5, 10, size=n), 'inc': a[0], 'sca': b.ravel(),
+            'u': matrix_to_quat(geom.random_rotation(rng).astype(np.float64)),
+            'r': matrix_to_quat(geom.random_rotation(rng).astype(np.float64)), 'b': np.triu(rng.uniform(0.5, 2, size=(3, 3))).ravel()}
+    f = {k: np.asarray(v, dtype=np.float64) for k, v in args.items()}
+    mon.meta = {'family': 'fresh_interpreter', 'entry': which}
+    lam = sc.array(dims=['pixel'], values=f['lam'], unit='angstrom')
+    inc, sca = sc.vector(f['inc'], unit='m'), sc.vectors(dims=['pixel'], values=f['sca'].reshape(-1, 3), unit='m')
+    um, bm = sc.spatial.rotation(value=f['u']), sc.spatial.linear_transform(value=f['b'].reshape(3, 3), unit='1/angstrom')
+    rm = sc.spatial.rotation(value=f['r'])
+    try:
+        if which == 'kernels':
+            el = K.Q_elements_from_wavelength(wavelength=lam, incident_beam=inc, scattered_beam=sca)
+            qv = K.Q_vec_from_Q_elements(**el)
+            ub = K.ub_matrix_from_u_and_b(u_matrix=um, b_matrix=bm)
+            h = K.hkl_vec_from_Q_vec(Q_vec=qv, ub_matrix=ub, sample_rotation=rm)
+            here = {**el, 'Q_vec': qv, 'ub_matrix': ub, 'hkl_vec': h, **K.hkl_elements_from_hkl_vec(hkl_vec=h)}
+        else:
+            da = sc.DataArray(sc.ones(dims=['pixel'], shape=[n]), coords={
+                'wavelength': lam, 'incident_beam': inc, 'scattered_beam': sca, 'u_matrix': um, 'b_matrix': bm, 'sample_rotation': rm})
+            r = da.transform_coords(['h', 'k', 'l'], graph=GT.elastic_hkl('wavelength'), keep_intermediate=True, rename_dims=False)
+            here = {k: r.coords[k] for k in ('Qx', 'Qy', 'Qz', 'Q_vec', 'ub_matrix', 'hkl_vec', 'h', 'k', 'l')}
+    except Exception as e:  # noqa: BLE001
+        ctx.violation('raised_outer', f'fresh-interpreter reference calls: {type(e).__name__}: {e}', dict(mon.meta))
+        return
+    payload = json.dumps({k: [float(x).hex() for x in v.ravel()] for k, v in f.items()})
+    env = dict(os.environ)  # PYTHONPATH of the worker: the tree under observation
+    try:
+        p = subprocess.run([sys.executable, '-c', _FRESH_KERNELS if which == 'kernels' else _FRESH_GRAPH, payload],
+                           env=env, capture_output=True, text=True, timeout=300)
+    except Exception:  # noqa: BLE001
+        ctx.oracle_error('fresh_interpreter.subprocess')
+        return
+    ctx.event('fresh_interpreter')
+    ctx.case(('fresh_interpreter', which))
+    if p.returncode != 0:
+        tail = (p.stderr or '').strip().splitlines()[-1:] or ['']
+        ctx.violation('fresh_interpreter', f'first call in a fresh interpreter that imported only the module of the entry point '
+                      f'({which}) failed: {tail[0][:300]}', dict(mon.meta), mechanism='raised')
+        return
+    try:
+        got = json.loads(p.stdout.strip().splitlines()[-1])
+        src = os.path.realpath(os.environ.get('RV_REPO_SRC', '/repo/src'))
+        if not os.path.realpath(got['file']).startswith(src):
+            ctx.inconclusive_because(f'fresh interpreter imported scippneutron from {got["file"]}, not from {src}')
+            return
+        bad = []
+        for k, v in here.items():
+            u, d, vals = got['res'][k]
+            mine = [float(x).hex() for x in np.asarray(v.values).ravel()]
+            if u != str(v.unit) or tuple(d) != tuple(v.dims) or vals != mine:
+                bad.append(k)
+        keys_bad = []
+        if which == 'graph':
+            for fn in ('elastic_Q_vec', 'elastic_hkl'):
+                for s in ('tof', 'wavelength'):
+                    if got['keys'][fn + ':' + s] != sorted(map(str, getattr(GT, fn)(s))):
+                        keys_bad.append(f'{fn}({s!r})')
+    except Exception:  # noqa: BLE001
+        ctx.oracle_error('fresh_interpreter.compare')
+        return
+    ctx.hit('first call in a fresh interpreter: ' + which)
+    if bad or keys_bad:
+        ctx.violation('fresh_interpreter', f'first call in a fresh interpreter ({which}): {bad + keys_bad} differ from the same '
+                      'call in the worker process', dict(mon.meta), mechanism='differs')
+
+
 def heavy(rng, ctx, K, KB, mon):
     """Sizes beyond the generic small ones (no literal size threshold appears in the kernels themselves; scipp switches
     to multi-threaded loops for large operands): 2**20 + 7 pixels, 3 x 400001, 2**20 + 7 events, a long Q array
@@ -1090,7 +1867,10 @@ def requirements(tier):
                        'Q_elements_from_wavelength.variances': 200, 'Q_elements_from_wavelength.refusal': 50,
                        'Q_vec_from_Q_elements.refusal': 100, 'family.rescale.variances': 50,
                        'family.norm_vs_scalar_Q.variances': 50, 'coordinate_variances': 30, 'masks': 30,
-                       'caller_graph': 10, 'str_subclass': 100, 'second_use': 50, 'copies': 30, 'graph_factory': 30},
+                       'caller_graph': 10, 'str_subclass': 100, 'second_use': 50, 'copies': 30, 'graph_factory': 30,
+                       'alias.result_after_argument_write': 1000, 'alias.arguments_after_result_write': 300,
+                       'modify_between_calls': 1000, 'alias.workspace_coordinate_written': 100, 'graph_nodes': 50,
+                       'graph_blocks': 400, 'unicode_names': 100, 'fresh_interpreter': 2, 'dim_names': 50},
             'forced': ['nearly parallel beams', 'nearly antiparallel beams', 'axis permutation rotation',
                        'cond(B) >= 1e5', 'component with transposed dims',
                        'dimensionless incident beam', 'dimensionless scattered beam',
@@ -1116,7 +1896,13 @@ def requirements(tier):
                        'second use: results fed back as inputs',
                        'second use: graph object used twice, deep-copied, factory called again',
                        'display / copies of intermediate results between two calls']
-            + VAR_CLASSES + HEAVY_CLASSES
+            + VAR_CLASSES + HEAVY_CLASSES + WRITE_CLASSES + GRAPH_BLOCK_CLASSES + WORKSPACE_WRITE_CLASSES
+            + [identity_label(w, f, a) for w in 'UR' for f, a in IDENTITY_FORMS]
+            + [f'operand length {n} (element types have 3, 4, 9 components)' for n in SIZE_POINTS]
+            + [f'dim lengths {n} x {nw} (vector types have 3, 4, 9 components)' for n, nw in SIZE_PAIRS]
+            + ['caller dims whose names are not in NFC / NFKC form (pairs with the same normal form)',
+               'names that only normalise (NFKC) to tof / wavelength / Q_vec / hkl_vec',
+               'first call in a fresh interpreter: kernels', 'first call in a fresh interpreter: graph']
             + [v[0] for v in ANGLE_CLASSES.values() if v[0] not in ('nearly parallel beams', 'nearly antiparallel beams')]}
 
 
@@ -1152,7 +1938,7 @@ def run(shard, ctx):
                 ctx.violation('raised_outer', f'{type(e).__name__}: {e}', dict(mon.meta))
         for i in range(shard['hkl']):
             try:
-                sig = hkl_family(rng, ctx, K, mon)
+                sig = hkl_family(rng, ctx, K, mon, i)
             except Exception as e:  # noqa: BLE001
                 ctx.violation('raised_outer', f'{type(e).__name__}: {e}', dict(mon.meta))
                 continue
@@ -1213,6 +1999,22 @@ def run(shard, ctx):
             insitu_extras(rng, ctx, K, KB, mon, scn, GT)
         except Exception:  # noqa: BLE001
             ctx.oracle_error('insitu_extras')
+        # deterministic classes of every shard: in-place writes after / between calls (kernels and workspaces), the graph
+        # factories as building blocks of a caller's graph, names that are not in normal form
+        for label, fn in (('write_family', lambda: write_family(rng, ctx, K, mon)),
+                          ('workspace_writes', lambda: workspace_writes(rng, ctx, K, mon, scn, GT)),
+                          ('graph_node_sets', lambda: graph_node_sets(ctx, mon, GT)),
+                          ('graph_blocks', lambda: graph_blocks(rng, ctx, K, mon, GT)),
+                          ('unicode_names', lambda: unicode_names(rng, ctx, mon, scn, GT, da, da_tof))):
+            try:
+                fn()
+            except Exception:  # noqa: BLE001
+                ctx.oracle_error(label)
+        if shard['index'] in (1, 2):  # two fresh interpreters per run
+            try:
+                fresh_interpreter(rng, ctx, K, mon, GT, 'kernels' if shard['index'] == 1 else 'graph')
+            except Exception:  # noqa: BLE001
+                ctx.oracle_error('fresh_interpreter')
 
 
 TECHNIQUE = ('runtime monitors (sys.monitoring) on the Q-vector / hkl kernels; long-double defining algebra '
@@ -1222,7 +2024,9 @@ LEVEL_TEXT = ('exploration: every observed return of the Q-vector/hkl kernels (d
               'absolute (double-precision beams) plus 64 eps32 |Q_vec| relative for single-precision wavelengths, '
               '|Q_vec| = scalar Q, independence of beam lengths, covariance under SO(3) (same two-term bounds), residual of '
               '2 pi R UB hkl = Q at 64 eps cond |Q|, UB = U B, lossless split/reassemble; variances of Qx, Qy, Qz for a '
-              'wavelength with variances against first-order propagation and against the scalar Q. Sampled inputs, '
+              'wavelength with variances against first-order propagation and against the scalar Q; results do not share '
+              'memory with arguments (in-place write probes), no memoisation by object identity, graph factories honour '
+              'caller nodes for their documented inputs (judged against the workspace\'s own R, U, B). Sampled inputs, '
               'not a proof.')
 LEVEL_NOTE = 'trusted: numpy long double, float64 SVD for condition numbers, scipp spatial containers'
 DESIGN_REF = 'DESIGN.md section 4, C08'
